@@ -57,6 +57,9 @@ checks = {
  "C17": ("exploration", "enum", E1,
          "Frequency (quick: 10 M values on the 100 Hz grid of the LoRa bands plus twenty every-Hz windows; thorough: every Hz value 0..2^32), every Percentage -1000..1000, HEXBytes lengths 0..40, ISO8601Time every second of four days x three zones, each of the 20 payload structs with every subset (up to 2^10) of its optional fields x 3 value variants through json.Marshal/Unmarshal compared field by field, and key envelopes over KEK sizes/keys/labels with every single-bit flip of the wrapped blob, wrong KEK and wrong lengths against an independent RFC 3394.",
          "encoding/json, strconv and crypto/aes trusted; RFC 3394 re-implemented and self-tested."),
+ "C07": ("model_checking", "xstate", E2,
+         "Registry histories: explicit-state BFS over RegisterProprietaryMACCommand(direction x {0x7F,0x80,0xFF} x size {-1,0,1,2,16}) from the reset registry (depth 2 quick / 3 thorough) against a map model, with all 256 CIDs x 2 directions and the stream framing of the registered CIDs compared in every state. Values: every 8-bit/boolean field of every MAC payload over its complete Go domain (one field at a time x 3 base tuples, all pairs for two-field payloads), frequency windows and single-bit values (thorough: every multiple of 50 Hz), DeviceTimeAns boundary durations; oracle lossless-or-error and must-accept ranges. Streams: all sequences of <= 3 (thorough 4) commands over the complete CID set with adversarial payloads, all sequences over a size-class alphabet up to 15 bytes, fills to 15/242 bytes, and 3-byte strings against the specification framer.",
+         "The full set of command sequences up to 15 bytes (~10^14) is out of reach; it is covered by length <= 3/4 over all CIDs plus all sequences over one CID per payload-size class (the framer depends on CIDs only through their size)."),
 }
 
 def load_extra():
